@@ -85,7 +85,8 @@ pub fn render(layout: &Value, skin: &Skin) -> (String, usize) {
 
 fn rules_json(lang: &str) -> Vec<Value> {
   vec![
-    json!({"id": "r1", "language": lang, "severity": "warning", "message": "m1",
+    // r1 has a fix: with separate_fix its matches travel as diffs, and must be silenced just the same
+    json!({"id": "r1", "language": lang, "severity": "warning", "message": "m1", "fix": "fixed()",
            "rule": {"any": [{"pattern": "a1($$$)"}, {"pattern": "b($$$)"}]}}),
     json!({"id": "r2", "language": lang, "severity": "warning", "message": "m2",
            "rule": {"any": [{"pattern": "a2($$$)"}, {"pattern": "b($$$)"}]}}),
